@@ -974,7 +974,8 @@ fn do_command_substitution_for_dollar(sh: &mut Shell, tokens: &mut types::Tokens
                 }
             };
 
-            let output_txt = cmd_result.stdout.trim();
+            // only the trailing newlines go; blanks belong to the output
+            let output_txt = cmd_result.stdout.trim_end_matches('\n');
             if has_operator_char(output_txt) {
                 got_operator = true;
             }
@@ -1030,7 +1031,7 @@ fn do_command_substitution_for_dot(sh: &mut Shell, tokens: &mut types::Tokens) {
                 }
             };
 
-            new_token = cr.stdout.trim().to_string();
+            new_token = cr.stdout.trim_end_matches('\n').to_string();
         } else {
             idx += 1;
             continue;
